@@ -19,6 +19,8 @@
 #include "util/threaded_buffered_stream.hh"
 
 #include <cstdlib>
+#include <cstddef>
+#include <limits>
 #include <cstring>
 #include <stdint.h>
 #include <sys/syscall.h>
@@ -114,6 +116,26 @@ void StringStreamCase(const std::vector<std::string> &t) {
   std::cout << "OK " << s.size() << " sum=" << g_sum_b * 65536 + g_sum_a << "\n";
 }
 
+// every fundamental type that FakeOStream::operator<< accepts, at its extremes, through the real dispatch (Coerce)
+enum SmallEnum { kEnumNeg = -7, kEnumPos = 12 };
+template <class T> void Both(util::StringStream &out, const char *name) {
+  out << name << '=' << std::numeric_limits<T>::min() << ',' << std::numeric_limits<T>::max() << ' ';
+}
+void Dispatch() {
+  util::StringStream out;
+  Both<short>(out, "short"); Both<unsigned short>(out, "ushort"); Both<int>(out, "int"); Both<unsigned>(out, "uint");
+  Both<long>(out, "long"); Both<unsigned long>(out, "ulong"); Both<long long>(out, "llong"); Both<unsigned long long>(out, "ullong");
+  Both<std::size_t>(out, "size_t"); Both<int16_t>(out, "int16"); Both<uint16_t>(out, "uint16"); Both<int32_t>(out, "int32");
+  Both<uint32_t>(out, "uint32"); Both<int64_t>(out, "int64"); Both<uint64_t>(out, "uint64"); Both<std::ptrdiff_t>(out, "ptrdiff");
+  out << "bool=" << false << ',' << true << ' ';
+  out << "char=" << 'A' << ',' << static_cast<signed char>('B') << ',' << static_cast<unsigned char>('C') << ' ';
+  out << "enum=" << kEnumNeg << ',' << kEnumPos << ' ';
+  out << "cstr=" << "lit" << ',' << std::string("str") << ',' << util::StringPiece("piece") << ' ';
+  out << "ptr=" << static_cast<const void*>(0) << ',' << reinterpret_cast<const void*>(static_cast<uintptr_t>(0xdeadbeef)) << ' ';
+  out << "dbl=" << 0.5 << ',' << -1e300 << ',' << 1.0f << ',' << -2.5e-7f;
+  std::cout << out.str() << "\n";
+}
+
 void Stream(const std::vector<std::string> &t) {
   g_sizes.clear(); g_sum_a = 1; g_sum_b = 0;
   g_capture = true;
@@ -169,6 +191,7 @@ int main() {
     else if (c == "ST") Stream(t);
     else if (c == "TS") ThreadedStream(t);
     else if (c == "SS") StringStreamCase(t);
+    else if (c == "DISPATCH") Dispatch();
     else std::cout << "?\n";
   }
   return 0;
